@@ -501,6 +501,11 @@ def rule_bracket(ctx, prop):
                     t = f.blocks[b]["term"]
                     if t["k"] == "call" and callee(t).endswith("TokenType::spaces"):
                         spaced = True
+                    elif t["k"] == "call" and callee(t).startswith(f.path + "::{closure"):
+                        # `let padding = || vec![Token::new(TokenType::spaces(1))];` called on this branch
+                        cg = prog.fn("stylua_lib", callee(t))
+                        if cg is not None and any(callee(tt).endswith("TokenType::spaces") for _, tt in cg.calls()):
+                            spaced = True
             for b, s in sites:
                 nl = any(callee(t).endswith("context::create_newline_trivia") and f.dominates(bb, b)
                          for bb, t in f.calls())
